@@ -200,6 +200,19 @@ def residue(chk, binary, n):
         chk.fail("residue:" + what, "residue:%s:%s" % (what, c),
                  "measured property violated on the real code: " + l[:400], {"line": l}, True)
     chk.count(int(m.group(1)), int(m.group(1)))
+    hitmap = dict(kv.split("=") for kv in h.group(1).split()) if h else {}
+    need = ["shrt3:graded", "shrt3:reflected", "shrt3:no-shear", "shrt3:unit", "shrt2:graded", "shrt2:reflected", "shrt3:order-XYZ",
+            "shrt3:order-ZYX", "shrt3:order-ZXZ", "shrt3:order-XYZr", "procrustes:far-cloud:exact", "procrustes:far-lattice:exact",
+            "procrustes:collinear:exact", "procrustes:coplanar:exact", "procrustes:single:exact", "procrustes:general:noisy",
+            "svd:graded", "svd:rank-deficient", "svd:repeated", "svd:last-negative", "eig:graded"]
+    missing = [k for k in need if int(hitmap.get(k, 0)) == 0]
+    chk.oblige("residue:generator reaches every input class (%s)" % ", ".join("%s=%s" % (k, hitmap.get(k, 0)) for k in need),
+               "residue", not missing, missing or None)
+    for k in missing:
+        chk.fail("residue:generator", "residue:generator:" + k, "residue generator never produced class " + k, {"hits": hitmap}, False)
+    if int(hitmap.get("procrustes:far-lattice:inexact-skipped", 0)) > 0:
+        chk.oblige("residue:far-lattice inputs exactly representable", "residue", False, hitmap)
+        chk.fail("residue:generator", "residue:generator:far-lattice-inexact", "far-lattice generator produced inputs that are not exact at T", {"hits": hitmap}, False)
     chk.residues["C12"] = {"evaluations": int(m.group(1)), "worst_value_over_bound": worst,
                            "bounds": "each constant ~4x the largest value observed on the clean tree (seeds 1-5 quick, 1-3 thorough): "
                                      "SVD U orthonormal, |U diag(S) V^T - A| <= 64*eps*|A|, V orthonormal 40*eps; eigen 24*eps; "
